@@ -33,6 +33,15 @@
      Ret1(j)          BARRIER: j holds all round-1 inputs; transport Round1 returns, round2() verifies every share
                       against its sender's commitments, sums, and transport Round2 is entered (cast, self-delivery)
      Ret2(j)          j holds all round-2 casts; transport Round2 returns, makeShares builds the result
+     Fault(i, r)      ENVIRONMENT: one send of node i's round-r send step (the reliable broadcast of its cast, or -- r = 1 --
+                      a direct share send) will FAIL with a transient error (stream reset / resource scope closed as
+                      p2p.IsRelayError classifies them, or any other error).  As coded the send step returns the error and
+                      the node ABORTS (StartAbort / Ret1Abort: runFrostParallel returns the error); an implementation that
+                      tries again continues with Start / Ret1 exactly as if nothing had failed -- whatever it re-sends
+                      reaches a peer as a Redeliver (no effect) -- and may still abort later (Ret1Abort / Ret2Abort).
+                      The property is silent on WHICH of the two happens ("either the ceremony aborts, or ..."); it is not
+                      silent on the result: the nodes that finish agree (FinAgreement, FinShareMatches, FinReconstructs)
+                      and a node enters round 2 only with the round-1 cast of ALL n participants (UsedAllCasts).
 
    Variant selects controls that MUST violate an invariant (FrostMC_ctl_*.cfg):
      "ok"         as coded
@@ -42,12 +51,15 @@
      "nobarrier"  transport Round1 returns one cast (and the matching share batch) early
      "lastid"     newBcastCallback keeps, per peer, only the id of the LAST accepted cast (one map for both rounds):
                   once a peer's round-2 cast was accepted a re-delivered round-1 cast of it is accepted again
-     "mixvals"    getRound2Inputs ignores ValIdx: every validator's round 2 sees the inputs of the LAST validator *)
+     "mixvals"    getRound2Inputs ignores ValIdx: every validator's round 2 sees the inputs of the LAST validator
+     "retrydup"   frostP2P.Round1 runs its whole send step a second time after a failed send: the self-delivery of the
+                  node's own cast ("f.round1CastsRecv <- casts") is repeated and bypasses the callback's seen-set, so
+                  the own cast is counted twice and the node proceeds with one participant's cast MISSING *)
 EXTENDS Integers, FiniteSets, Sequences, TLC
 CONSTANTS Variant
 
 VARIABLES par,      \* [n, t, nv, p]: nodes, threshold, validators, field modulus (fixed by Init)
-          phase,    \* node -> "idle" | "r1" (inside transport Round1) | "r2" (inside transport Round2) | "done" | "failed"
+          phase,    \* node -> "idle" | "r1" (inside transport Round1) | "r2" (inside transport Round2) | "done" | "failed" | "aborted"
           poly,     \* node -> [ValIdx -> coefficient sequence] (the node's private polynomials)
           c1,       \* node -> round-1 cast batch    [ValIdx -> commitments]
           p1,       \* node -> round-1 share batches [target -> [ValIdx -> [id, val]]]
@@ -57,9 +69,11 @@ VARIABLES par,      \* [n, t, nv, p]: nodes, threshold, validators, field modulu
           cnt1, cnt2,           \* node -> number of cast messages in its round1CastsRecv / round2CastsRecv channel
           last,                 \* node -> [peer -> round of the last cast accepted from it] (only "lastid" reads it)
           redel,                \* number of re-deliveries so far (history; bounded in MC configs)
+          flt,                  \* node -> rounds (1, 2) whose send step is hit by a failing send (environment)
+          used1,                \* node -> sources of the round-1 casts it took into round 2 (history, set by Ret1)
           sk, vk,   \* node -> [ValIdx -> own secret share / verification (group) key] after round 2
           res       \* node -> [ValIdx -> [gk, ss, ps]]: share.Share{PubKey, SecretShare, PublicShares}
-vars == <<par, phase, poly, c1, p1, c2, got1c, got1p, got2, cnt1, cnt2, last, redel, sk, vk, res>>
+vars == <<par, phase, poly, c1, p1, c2, got1c, got1p, got2, cnt1, cnt2, last, redel, flt, used1, sk, vk, res>>
 
 Nodes == 1..par.n
 Vals == 0..(par.nv - 1)
@@ -106,32 +120,47 @@ InitWith(n, t, nv, p) ==
   /\ got1c = [i \in 1..n |-> {}] /\ got1p = [i \in 1..n |-> {}] /\ got2 = [i \in 1..n |-> {}]
   /\ cnt1 = [i \in 1..n |-> 0] /\ cnt2 = [i \in 1..n |-> 0]
   /\ last = [j \in 1..n |-> [i \in 1..n |-> 0]] /\ redel = 0
+  /\ flt = [i \in 1..n |-> {}] /\ used1 = [i \in 1..n |-> {}]
   /\ sk = [i \in 1..n |-> <<>>] /\ vk = [i \in 1..n |-> <<>>] /\ res = [i \in 1..n |-> <<>>]
+
+\* ENVIRONMENT: one send of i's round-r send step fails (the node has not reached that step yet)
+Fault(i, r) ==
+  /\ r \in {1, 2} /\ r \notin flt[i]
+  /\ phase[i] \in (IF r = 1 THEN {"idle"} ELSE {"idle", "r1"})
+  /\ flt' = [flt EXCEPT ![i] = @ \cup {r}]
+  /\ UNCHANGED <<par, phase, poly, c1, p1, c2, got1c, got1p, got2, cnt1, cnt2, last, redel, used1, sk, vk, res>>
 
 \* round1(): kryptology Round1 per validator -- feldman.Split gives share id x the value f(x); the share for
 \* participant id is shares[id-1]; the cast carries the commitments; then frostP2P.Round1 sends everything.
-Start(i, c) ==
+\* ab: a send of the step failed and the node gives up (whatever it had sent before may still reach its peers).
+SelfCasts(i) == IF Variant = "retrydup" /\ 1 \in flt[i] THEN 2 ELSE 1
+StartBody(i, c, ab) ==
   /\ phase[i] = "idle" /\ PolyShape(c)
   /\ poly' = [poly EXCEPT ![i] = c]
   /\ c1' = [c1 EXCEPT ![i] = [v \in Vals |-> [k \in 1..Len(c[v]) |-> Pub(c[v][k])]]]
   /\ p1' = [p1 EXCEPT ![i] = [j \in Nodes \ {i} |-> [v \in Vals |-> [id |-> j, val |-> Eval(c[v], j)]]]]
-  /\ got1c' = [got1c EXCEPT ![i] = @ \cup {i}]                     \* "f.round1CastsRecv <- casts // Send to self"
-  /\ cnt1' = [cnt1 EXCEPT ![i] = @ + 1]
-  /\ phase' = [phase EXCEPT ![i] = "r1"]
-  /\ UNCHANGED <<par, c2, got1p, got2, cnt2, last, redel, sk, vk, res>>
+  /\ IF ab THEN phase' = [phase EXCEPT ![i] = "aborted"] /\ UNCHANGED <<got1c, cnt1>>
+     ELSE /\ got1c' = [got1c EXCEPT ![i] = @ \cup {i}]             \* "f.round1CastsRecv <- casts // Send to self"
+          /\ cnt1' = [cnt1 EXCEPT ![i] = @ + SelfCasts(i)]
+          /\ phase' = [phase EXCEPT ![i] = "r1"]
+  /\ UNCHANGED <<par, c2, got1p, got2, cnt2, last, redel, flt, used1, sk, vk, res>>
+Start(i, c) == StartBody(i, c, FALSE)
+StartAbort(i, c) == 1 \in flt[i] /\ StartBody(i, c, TRUE)
 
 \* first delivery of a batch: the callback has not seen this peer's message of this kind, records it, pushes it
 Deliver1C(i, j) == /\ i # j /\ phase[i] # "idle" /\ i \notin got1c[j]
                    /\ got1c' = [got1c EXCEPT ![j] = @ \cup {i}]
                    /\ cnt1' = [cnt1 EXCEPT ![j] = @ + 1] /\ last' = [last EXCEPT ![j][i] = 1]
-                   /\ UNCHANGED <<par, phase, poly, c1, p1, c2, got1p, got2, cnt2, redel, sk, vk, res>>
+                   /\ UNCHANGED <<par, phase, poly, c1, p1, c2, got1p, got2, cnt2, redel, flt, used1, sk, vk, res>>
 Deliver1P(i, j) == /\ i # j /\ phase[i] # "idle" /\ i \notin got1p[j]
                    /\ got1p' = [got1p EXCEPT ![j] = @ \cup {i}]
-                   /\ UNCHANGED <<par, phase, poly, c1, p1, c2, got1c, got2, cnt1, cnt2, last, redel, sk, vk, res>>
-Deliver2(i, j) == /\ i # j /\ phase[i] \in {"r2", "done"} /\ i \notin got2[j]
+                   /\ UNCHANGED <<par, phase, poly, c1, p1, c2, got1c, got2, cnt1, cnt2, last, redel, flt, used1, sk, vk, res>>
+\* (the round-2 cast of a node that aborted INSIDE its round-2 send step may have reached some of its peers)
+Deliver2(i, j) == /\ i # j /\ i \notin got2[j]
+                  /\ phase[i] \in {"r2", "done"} \/ (phase[i] = "aborted" /\ DOMAIN c2[i] # {})
                   /\ got2' = [got2 EXCEPT ![j] = @ \cup {i}]
                   /\ cnt2' = [cnt2 EXCEPT ![j] = @ + 1] /\ last' = [last EXCEPT ![j][i] = 2]
-                  /\ UNCHANGED <<par, phase, poly, c1, p1, c2, got1c, got1p, cnt1, redel, sk, vk, res>>
+                  /\ UNCHANGED <<par, phase, poly, c1, p1, c2, got1c, got1p, cnt1, redel, flt, used1, sk, vk, res>>
 \* a batch j already received is delivered to it again (same message id, same validly signed content)
 Kinds == {"c1", "c2", "p1"}
 Redeliver(i, j, k) ==
@@ -145,7 +174,7 @@ Redeliver(i, j, k) ==
              /\ IF k = "c1" THEN cnt1' = [cnt1 EXCEPT ![j] = @ + 1] /\ UNCHANGED cnt2
                 ELSE cnt2' = [cnt2 EXCEPT ![j] = @ + 1] /\ UNCHANGED cnt1
         ELSE UNCHANGED <<last, cnt1, cnt2>>                         \* "Ignoring duplicate round ... message"
-  /\ UNCHANGED <<par, phase, poly, c1, p1, c2, got1c, got1p, got2, sk, vk, res>>
+  /\ UNCHANGED <<par, phase, poly, c1, p1, c2, got1c, got1p, got2, flt, used1, sk, vk, res>>
 
 \* frostP2P.Round1: "len(castsRecvs) == len(f.peers) && len(p2pRecvs) == len(f.peers)-1" -- message COUNTS
 Barrier1(j) == IF Variant = "nobarrier"
@@ -153,8 +182,10 @@ Barrier1(j) == IF Variant = "nobarrier"
                ELSE cnt1[j] = par.n /\ Cardinality(got1p[j]) = par.n - 1
 \* getRound2Inputs: the round-2 inputs of validator v are the entries whose ValIdx is v, by SourceID
 InVal(v) == IF Variant = "mixvals" THEN par.nv - 1 ELSE v
-Ret1(j) ==
+\* ab: the broadcast of the round-2 cast failed and the node gives up (the cast may have reached some peers)
+Ret1Body(j, ab) ==
   /\ phase[j] = "r1" /\ Barrier1(j)
+  /\ used1' = [used1 EXCEPT ![j] = got1c[j]]
   /\ LET from == got1c[j] \ {j}              \* makeRound1Response is a map; kryptology Round2: "for id := range bcast"
          ok == /\ from \subseteq got1p[j]
                /\ \A i \in from : \A v \in Vals : FeldmanOK(c1[i][InVal(v)], p1[i][j][InVal(v)])
@@ -163,12 +194,20 @@ Ret1(j) ==
      IN IF ok
         THEN /\ sk' = [sk EXCEPT ![j] = nsk] /\ vk' = [vk EXCEPT ![j] = nvk]
              /\ c2' = [c2 EXCEPT ![j] = [v \in Vals |-> [vk |-> nvk[v], vks |-> Pub(nsk[v])]]]
-             /\ got2' = [got2 EXCEPT ![j] = @ \cup {j}]            \* "f.round2CastsRecv <- casts // Send to self"
-             /\ cnt2' = [cnt2 EXCEPT ![j] = @ + 1]
-             /\ phase' = [phase EXCEPT ![j] = "r2"]
+             /\ IF ab THEN phase' = [phase EXCEPT ![j] = "aborted"] /\ UNCHANGED <<got2, cnt2>>
+                ELSE /\ got2' = [got2 EXCEPT ![j] = @ \cup {j}]    \* "f.round2CastsRecv <- casts // Send to self"
+                     /\ cnt2' = [cnt2 EXCEPT ![j] = @ + 1]
+                     /\ phase' = [phase EXCEPT ![j] = "r2"]
         ELSE /\ phase' = [phase EXCEPT ![j] = "failed"]            \* "feldman verify fails for participant ..."
              /\ UNCHANGED <<sk, vk, c2, got2, cnt2>>
-  /\ UNCHANGED <<par, poly, c1, p1, got1c, got1p, cnt1, last, redel, res>>
+  /\ UNCHANGED <<par, poly, c1, p1, got1c, got1p, cnt1, last, redel, flt, res>>
+Ret1(j) == Ret1Body(j, FALSE)
+\* a node whose send failed gives up: inside its round-2 send step, or -- it had tried round 1 again -- while it waits
+GiveUp(j, ph) == /\ phase[j] = ph /\ flt[j] # {}
+                 /\ phase' = [phase EXCEPT ![j] = "aborted"]
+                 /\ UNCHANGED <<par, poly, c1, p1, c2, got1c, got1p, got2, cnt1, cnt2, last, redel, flt, used1, sk, vk, res>>
+Ret1Abort(j) == (2 \in flt[j] /\ Ret1Body(j, TRUE)) \/ (1 \in flt[j] /\ GiveUp(j, "r1"))
+Ret2Abort(j) == GiveUp(j, "r2")
 
 \* frostP2P.Round2: "for len(castsRecvs) != len(f.peers)" (a count again); then makeShares: PublicShares[SourceID] =
 \* VkShare of the round-2 cast keyed [ValIdx, SourceID]; PubKey = the node's OWN VerificationKey; ordered by ValIdx.
@@ -180,7 +219,7 @@ Ret2(j) ==
                [gk |-> vk[j][v], ss |-> sk[j][v],
                 ps |-> [x \in {PsKey(i) : i \in got2[j]} |-> c2[CHOOSE i \in got2[j] : PsKey(i) = x][PsVal(v)].vks]]]]
   /\ phase' = [phase EXCEPT ![j] = "done"]
-  /\ UNCHANGED <<par, poly, c1, p1, c2, got1c, got1p, got2, cnt1, cnt2, last, redel, sk, vk>>
+  /\ UNCHANGED <<par, poly, c1, p1, c2, got1c, got1p, got2, cnt1, cnt2, last, redel, flt, used1, sk, vk>>
 
 ------------------------------------------------------------------------------------------------------------
 (* The property (C11), stated over the results of a completed ceremony. *)
@@ -218,17 +257,30 @@ ThresholdIsT == \A i \in Nodes : phase[i] # "idle" => \A v \in Vals : Len(c1[i][
 \* 0 would be t roots of a non-zero polynomial of degree t-1)
 BelowThresholdSafe == AllDone => \A v \in Vals : LeadSum(v) # 0 =>
                         \A S \in SubsetsOf(par.t - 1) : \A h \in Hs : ~SigOK(1, v, S, h)
-TypeOK == /\ \A j \in Nodes : phase[j] \in {"idle", "r1", "r2", "done", "failed"}
+TypeOK == /\ \A j \in Nodes : phase[j] \in {"idle", "r1", "r2", "done", "failed", "aborted"}
           /\ \A j \in Nodes : got1c[j] \subseteq Nodes /\ got1p[j] \subseteq Nodes \ {j} /\ got2[j] \subseteq Nodes
+          /\ \A j \in Nodes : flt[j] \subseteq {1, 2} /\ used1[j] \subseteq Nodes
+          /\ \A j \in Nodes : phase[j] = "aborted" => flt[j] # {}         \* only a node whose send failed gives up
 \* every message in a receive channel is from a different peer: what makes counting messages sound
 CountsDistinct == \A j \in Nodes : cnt1[j] = Cardinality(got1c[j]) /\ cnt2[j] = Cardinality(got2[j])
 \* a re-delivered message never changes a node's state
 RedeliveryNoEffect == [][redel' # redel =>
-                           UNCHANGED <<par, phase, poly, c1, p1, c2, got1c, got1p, got2, cnt1, cnt2, sk, vk, res>>]_vars
+                           UNCHANGED <<par, phase, poly, c1, p1, c2, got1c, got1p, got2, cnt1, cnt2, flt, used1, sk, vk, res>>]_vars
 \* a node leaves round 1 only with one round-1 cast from EVERY peer (and every peer's share batch), round 2 likewise
-LeavesComplete(j) == /\ (phase[j] = "r1" /\ phase'[j] # "r1") => (got1c[j] = Nodes /\ got1p[j] = Nodes \ {j})
-                     /\ (phase[j] = "r2" /\ phase'[j] # "r2") => got2[j] = Nodes
+\* (a node that gives up after a failed send leaves with whatever it has: it produces no result)
+LeavesComplete(j) == /\ (phase[j] = "r1" /\ phase'[j] \notin {"r1", "aborted"}) => (got1c[j] = Nodes /\ got1p[j] = Nodes \ {j})
+                     /\ (phase[j] = "r2" /\ phase'[j] \notin {"r2", "aborted"}) => got2[j] = Nodes
 BarrierComplete == [][\A j \in Nodes : LeavesComplete(j)]_vars
+\* With failing sends (Fault): whatever the node whose send failed does -- give up or try again --, the nodes that
+\* FINISH hold one consistent threshold key, and nobody got into round 2 without the round-1 cast of every participant.
+Fin == {j \in Nodes : phase[j] = "done"}
+SomeAborted == \E j \in Nodes : phase[j] = "aborted"
+UsedAllCasts == \A j \in Nodes : phase[j] \in {"r2", "done"} => used1[j] = Nodes
+FinAgreement == \A j, k \in Fin : \A v \in Vals : res[j][v].gk = res[k][v].gk /\ res[j][v].ps = res[k][v].ps
+FinShareMatches == \A j, k \in Fin : \A v \in Vals : j \in PsKeys(k, v) /\ Pub(res[j][v].ss) = res[k][v].ps[j]
+FinReconstructs == \A k \in Fin : \A v \in Vals : \A S \in SUBSET Nodes : Cardinality(S) >= par.t =>
+                      /\ RecPk(k, v, S)                                       \* a finished node holds ALL public shares
+                      /\ S \subseteq Fin => \A h \in Hs : Verify(res[k][v].gk, h, AggSig(v, S, h))
 Safety == TypeOK /\ CountsDistinct /\ NoFailure /\ Agreement /\ KeyedByShareIdx /\ OwnShareMatches /\ GroupKeyIsSum
           /\ AnyTRecover /\ AnyTSign /\ ThresholdIsT /\ BelowThresholdSafe
 ====
